@@ -85,7 +85,8 @@ def gen_case(rng, idx, quick):
     n = rng.choice([8, 8, 16, 16, 32] if quick else [8, 16, 32, 32])
     rank = rng.choice([1, 1, 2, 3])
     dsize = rng.choice([1, 1, 2, 2, 3, 4])
-    ops = ["glwe", "glwe", "glwe", "glwe_assign", "cmux", "cmux", "cmux_assign", "cmux_assign_neg", "ggsw", "ggsw_assign"]
+    ops = ["glwe", "glwe", "glwe", "glwe_assign", "cmux", "cmux", "cmux_assign", "cmux_assign_neg", "ggsw", "ggsw_assign",
+           "cswap", "cswap", "gglwe", "gglwe_assign"]
     op = ops[idx % len(ops)] if idx < 3 * len(ops) else rng.choice(ops)
     ntt_only = rng.chance(1, 6)
     bg = rng.range(18, 40) if ntt_only else rng.range(6, 17)
@@ -97,16 +98,16 @@ def gen_case(rng, idx, quick):
     size_g = ceil_div(kg, bg)
     dnum_max = size_g // dsize
     dnum = rng.range(1, dnum_max)
-    cmux = op.startswith("cmux")
+    cmux = op.startswith("cmux") or op == "cswap"
     # radices: input / output mismatches (CMux asserts all three equal)
     if cmux:
         bi = bo = bg
     else:
         bi = bg if rng.chance(1, 2) else max(3, bg + rng.range(-3, 3))
         bo = bg if rng.chance(1, 2) else max(3, bg + rng.range(-3, 3))
-        if op in ("glwe_assign", "ggsw_assign"):
+        if op in ("glwe_assign", "ggsw_assign", "gglwe_assign"):
             bo = bi
-        if op == "ggsw":
+        if op in ("ggsw", "gglwe"):
             bo = bi
     # precisions: GLWE below / equal / above GGSW precision, result shorter / longer
     cls = rng.below(4)
@@ -137,24 +138,29 @@ def gen_case(rng, idx, quick):
         c["kf"] = max(2, ki + rng.range(-bg - 1, bg + 1))
         if op != "cmux":
             c["ko"] = c["ki"]
+        if op == "cswap" and rng.chance(1, 8):
+            # the cross-radix branch of Cswap: glwe_sub asserts equal radices (model: panic)
+            c["bi"] = c["bo"] = bg + rng.choice([-1, 1])
         if dsize >= 3 and op != "cmux_assign_neg" and rng.chance(1, 2):
             # regression of the defect repaired by poulpy d3c2e96 (res_dft is not zeroed by the CMux forms): leave
             # exactly representable stale limbs in the scratch slot it will occupy; they must not influence the result
             c["stale"] = rng.choice([6, 12, 20, 40, 44])
-    if op in ("ggsw", "ggsw_assign"):
+    if op in ("ggsw", "ggsw_assign", "gglwe", "gglwe_assign"):
+        if op.startswith("gglwe"):
+            c["rin"] = rng.range(1, 2)
         size_a = ceil_div(ki, bi)
         if size_a < 2:
             c["ki"] = ki = 2 * bi
             size_a = 2
         c["dnuma"] = rng.range(1, size_a - 1) if size_a > 1 else 1
         c["m1"] = "rand"
-        if op == "ggsw":
+        if op in ("ggsw", "gglwe"):
             # result GGSW (dsize 1): dnum rows need size > 1 and dnum <= size
             size_o = ceil_div(c["ko"], bo)
             if size_o < 2:
                 c["ko"] = 2 * bo
                 size_o = 2
-            c["dnumr"] = rng.range(1, min(size_o, c["dnuma"] + 1))
+            c["dnumr"] = rng.range(1, min(size_o, c["dnuma"] + (1 if op == "ggsw" or rng.chance(1, 6) else 0)))
         else:
             c["ko"] = c["ki"]
     return c
@@ -198,6 +204,14 @@ def model_line(c, a, big):
         return base + f" op=cmux bo={c['bo']} so={ceil_div(c['ko'], c['bo'])} bi={c['bi']} a={a['a']} f={a['f']}"
     if op in ("cmux_assign", "cmux_assign_neg"):
         return base + f" op={op} bo={c['bi']} so={ceil_div(c['ki'], c['bi'])} bi={c['bi']} a={a['a']} f={a['f']}"
+    if op == "cswap":
+        return base + f" op=cswap bo={c['bi']} so=0 bi={c['bi']} a={a['a']} f={a['f']}"
+    if op == "gglwe":
+        return base + (f" op=mat gglwe=1 bo={c['bo']} so={ceil_div(c['ko'], c['bo'])} bi={c['bi']} rows={c['dnumr']},{c['dnuma']},{c['rin']}"
+                       f" am={a['am']}")
+    if op == "gglwe_assign":
+        return base + (f" op=mat gglwe=1 bo={c['bi']} so={ceil_div(c['ki'], c['bi'])} bi={c['bi']} rows={c['dnuma']},{c['dnuma']},{c['rin']}"
+                       f" am={a['am']}")
     if op == "ggsw":
         return base + (f" op=mat bo={c['bo']} so={ceil_div(c['ko'], c['bo'])} bi={c['bi']} rows={c['dnumr']},{c['dnuma']},{c['rank'] + 1}"
                        f" am={a['am']}")
@@ -281,6 +295,19 @@ def oracle_case(c, a, res_str):
         ref = negmul(m2, p_in)
         bnd = bound_ep(c, sk, m2, emax, ebits, c["bi"], 1.0, c["bi"], len(ain[0]), b_out, len(out[0]))
         checks.append((p_out, bits_out, ref, bits_in, bnd))
+    elif op == "cswap":
+        x = parse_vec(a["a"], n)      # res_a
+        y = parse_vec(a["f"], n)      # res_b
+        oa, ob = (parse_vec(t, n) for t in res_str.split(";"))
+        b = c["bg"]
+        bit = m2[0]
+        wsize = max(len(x[0]), len(y[0]))
+        for out, src in ((oa, y if bit == 1 else x), (ob, x if bit == 1 else y)):
+            p_src, bits_src = phase(src, sk, b)
+            p_out, bits_out = phase(out, sk, b)
+            bnd = bound_ep(c, sk, [1], emax, ebits, b, 2.0, b, wsize, b, len(out[0]))
+            bnd += 2 * sn * 2.0 ** (-b * min(len(x[0]), len(y[0]), len(out[0]))) * 1.01
+            checks.append((p_out, bits_out, p_src, bits_src, bnd))
     elif op.startswith("cmux"):
         x = parse_vec(a["a"], n)      # t (cmux) / res (assign forms)
         y = parse_vec(a["f"], n)      # f (cmux) / a (assign forms)
@@ -306,9 +333,9 @@ def oracle_case(c, a, res_str):
     else:
         cells_in = [parse_vec(s, n) for s in a["am"].split(";")]
         cells_out = [parse_vec(s, n) for s in res_str.split(";")]
-        b_out = c["bo"] if op == "ggsw" else c["bi"]
+        b_out = c["bo"] if op in ("ggsw", "gglwe") else c["bi"]
         rows_a = c["dnuma"]
-        cols = rank + 1
+        cols = c["rin"] if op.startswith("gglwe") else rank + 1
         for q, out in enumerate(cells_out):
             row = q // cols
             if row >= rows_a:
@@ -616,7 +643,7 @@ def run(ctx):
             bad_here = False
             for i in range(4):
                 if BIG128[i] == 0 and not fft_ok:
-                    if outs[i].startswith("panic"):
+                    if outs[i].startswith("panic") and outs[i] != model[(k, BIG128[i])]:
                         broken.append(f"{BE_NAMES[i]} panics outside its magnitude domain: {req_line(c)}")
                     continue
                 if outs[i] != model[(k, BIG128[i])]:
